@@ -704,6 +704,10 @@ def specials(depth_family=False, enc_family=False, big_family=False):
                                   ("1970/01/01 00:00:00", "1969/12/31 23:59:59"), ("2038/01/19 03:14:08", "2038/01/19 03:14:07"))):
         body = "\nint\tmain(void)\n{\n\treturn (0);\n}\n"
         out.append((f"hdr_date{k}.c", header42(f"hdr_date{k}.c", created=cr, updated=up) + body, "clean"))
+    # editor encoding declarations and look-alikes in the first two lines (what a "coding:" sniffing reader would act on)
+    for k, first in enumerate(("/* -*- coding: utf-8-unix -*- */", "// vim: set fileencoding=rot13 :", "/* base64 decoding: rfc4648 */",
+                               "/* -*- coding: iso-latin-1-dos -*- */", "// coding=no_such_codec", "/* coding: utf-16 */", "// -*- coding: latin-1 -*-")):
+        out.append((f"coding_decl{k}.c", first + "\n" + ok_func(f"coding_decl{k}.c"), "erroneous"))
     out.append(("zoo_badlex3.c", ok_func("zoo_badlex3.c", body="\ta = 1;$\n\tb = 2;@\n\tc = 3;`\n\treturn (0);\n"), "zoo"))
     out.append(("zoo_badlex3.h", H("zoo_badlex3.h") + "\n#ifndef ZOO_BADLEX3_H\n# define ZOO_BADLEX3_H\n\nint\tft_a(void);$\nint\tft_b(void);@\n\n#endif\n", "zoo"))
     out.append(("zoo_vla.c", H("zoo_vla.c") + "\nint\tft_sum(int n)\n{\n\tint\ttab[n];\n\tchar\tbuf[n + 1][2 * n];\n\n\ttab[0] = n;\n\tbuf[0][0] = 0;\n\treturn (tab[0]);\n}\n", "zoo"))
@@ -794,6 +798,8 @@ def specials(depth_family=False, enc_family=False, big_family=False):
         out.append(("enc_badlex.c", ok_func("enc_badlex.c", body="\ta = 1;\udce9\n\treturn (0);\n"), "stress"))
         out.append(("enc_badlex2.c", ok_func("enc_badlex2.c") + "\udcff\udcfe\n", "stress"))
         out.append(("enc_badident.h", H("enc_badident.h") + "\n#ifndef ENC_BADIDENT_H\n# define ENC_BADIDENT_H\n\nint\tft_caf\udce9(void);\n\n#endif\n", "stress"))
+        # a file whose only diagnostics sit beyond line 999 (anything in a report that is sized by the largest line number of the run)
+        out.append(("tall1200.c", H("tall1200.c") + "\n" + "// filler\n" * 1186 + "int g_a ;\n", "stress"))
         out.append(("enc_utf8_bom.c", "\ufeff" + ok_func("enc_utf8_bom.c"), "literal"))
     for d in (range(44, 90) if depth_family else ()):
         out.append((f"depth_if{d}.c", header42(f"depth_if{d}.c") + "\n#if " + "(" * d + "1" + ")" * d + "\n# define A 1\n#endif\n\nint\tmain(void)\n{\n\treturn (0);\n}\n", "depth"))
